@@ -537,6 +537,158 @@ Definition own (e : ev) : Prop :=
 
 Definition pendl (s : cl) : list Z := if pend s =? 0 then [] else [pend s].
 
+(* ------------------------------------------------------------------ *)
+(** * C02 for every schedule (possible since the repair of F16: the pump dispatches only while nothing is outstanding):
+      the CALLs handed to the network are exactly the concluded requests followed by the outstanding one. *)
+
+Definition K (s : cl) : Prop := wrs (tr s) = conc (tr s) ++ pendl s.
+
+Lemma K_ext s s' : pend s' = pend s -> wrs (tr s') = wrs (tr s) -> conc (tr s') = conc (tr s) -> K s -> K s'.
+Proof. unfold K, pendl. intros -> -> ->. tauto. Qed.
+
+Lemma K_complete_conclude b s r k t : K s -> q s = r :: t -> pend s = r -> r <> 0 -> K (conclude (complete b s r) r k).
+Proof.
+  intros Hk Hq Hp Hr. unfold K in *.
+  destruct (complete_hit b s r t Hq) as (_ & Cp & Ct & _).
+  destruct (conclude_core (complete b s r) r k) as (_ & Dp & Dt & _).
+  unfold pendl in *. rewrite Dp, Cp, Dt, Ct. rewrite Hp, Z.eqb_refl in *. cbn [wrs conc].
+  apply Z.eqb_neq in Hr. rewrite Hr in Hk. rewrite Hk. cbn. rewrite app_nil_r. reflexivity.
+Qed.
+
+Lemma K_dispatch s h t : G1 s -> K s -> q s = h :: t -> pend s = 0 -> K (dispatch s).
+Proof.
+  intros G Hk Hq Hp. unfold dispatch. rewrite Hq. cbn [head].
+  assert (Hh : h <> 0). { destruct G as [_ Hpos _]. unfold Jpos in Hpos. rewrite Hq in Hpos. inversion Hpos; assumption. }
+  rewrite Hp. cbn [Z.eqb andb]. apply Z.eqb_neq in Hh. rewrite Hh. cbn [negb].
+  set (s2 := emit (set_pend s h) (EWr h (now (set_pend s h)))).
+  assert (K2 : K s2).
+  { unfold K, pendl in *. subst s2. cbn. rewrite Hh. rewrite Hp in Hk. cbn in Hk. rewrite Hk, app_nil_r. reflexivity. }
+  destruct (conn s2 && negb (failw s2)); [exact K2|].
+  apply (K_complete_conclude true s2 h K_WRITE t K2); [subst s2; cbn; exact Hq|subst s2; cbn; reflexivity|apply Z.eqb_neq; exact Hh].
+Qed.
+
+Lemma K_pump_tail s : G1 s -> K s -> K (pump_tail s).
+Proof.
+  intros G Hk. unfold pump_tail.
+  destruct (pumpStuck s); [exact Hk|]. destruct (paused s); [exact Hk|].
+  destruct (rdy s); cbn [andb]; [|exact Hk].
+  destruct (q s) as [|h t] eqn:Eq; cbn [negb andb]; [exact Hk|].
+  destruct (pend s =? 0) eqn:Ep; [|exact Hk]. apply Z.eqb_eq in Ep.
+  pose proof (K_dispatch s h t G Hk Eq Ep) as Kd.
+  destruct (pumpStuck (dispatch s)); [exact Kd|].
+  set (s2 := set_rdy (dispatch s) false).
+  assert (K2 : K s2) by (apply (K_ext (dispatch s)); [reflexivity|reflexivity|reflexivity|exact Kd]).
+  destruct (stop_drain_core s2) as (_ & B2 & B3 & _).
+  assert (K3 : K (stop_drain s2)) by (apply (K_ext s2); [exact B2|rewrite B3; reflexivity|rewrite B3; reflexivity|exact K2]).
+  destruct (pumpStuck (stop_drain s2)); [exact K3|].
+  apply (K_ext (stop_drain s2)); [reflexivity|reflexivity|reflexivity|exact K3].
+Qed.
+
+Lemma step_K l s : wf_lab l -> G1 s -> K s -> K (step l s).
+Proof.
+  intros Hw G Hk. pose proof G as [J1' Jp J4'].
+  destruct l; cbn [step wf_lab] in *; try contradiction.
+  - (* Send *)
+    set (s1 := set_cbq s _).
+    destruct (started s1 && negb (closing s1) && valid && negb (q_is_full s1));
+      (apply (K_ext s); [reflexivity|reflexivity|reflexivity|exact Hk]).
+  - (* Reply *)
+    destruct (negb (r =? 0) && (pend s =? r)) eqn:E; [|exact Hk].
+    apply andb_true_iff in E as [E1 E2]. apply Z.eqb_eq in E2. apply negb_true_iff, Z.eqb_neq in E1.
+    assert (Hne : pend s <> 0) by congruence. destruct (J1' Hne) as [t Ht]. rewrite E2 in Ht.
+    apply (K_complete_conclude false s r k t Hk Ht E2 E1).
+  - (* Expire *)
+    destruct (tmo s); [exact Hk|..]; (apply (K_ext s); [reflexivity|reflexivity|reflexivity|exact Hk]).
+  - (* Tick *)
+    set (s1 := set_now s _).
+    assert (K1 : K s1) by (apply (K_ext s); [reflexivity|reflexivity|reflexivity|exact Hk]).
+    destruct (tmo s1); try exact K1. destruct (deadline <=? now s1); [|exact K1].
+    apply (K_ext s1); [reflexivity|reflexivity|reflexivity|exact K1].
+  - (* Drop *)
+    destruct (conn s); [|exact Hk]. cbv zeta.
+    set (s1 := emit (set_conn s false) EDrop).
+    assert (K1 : K s1) by (apply (K_ext s); [reflexivity|reflexivity|reflexivity|exact Hk]).
+    destruct (started s1); [|exact K1].
+    destruct (stop_drain_core s1) as (_ & B2 & B3 & _).
+    apply (K_ext s1); [cbn; exact B2|cbn; rewrite B3; reflexivity|cbn; rewrite B3; reflexivity|exact K1].
+  - (* Reconn *)
+    destruct (negb (conn s) && started s && negb (closing s)); [|exact Hk]. cbv zeta.
+    match goal with |- context [if ?c then _ else _] => destruct c end;
+      (apply (K_ext s); [reflexivity|reflexivity|reflexivity|exact Hk]).
+  - (* NetFail *) apply (K_ext s); [reflexivity|reflexivity|reflexivity|exact Hk].
+  - (* Stop *)
+    destruct (started s && negb (closing s)); [|exact Hk].
+    apply (K_ext s); [reflexivity|reflexivity|reflexivity|exact Hk].
+  - (* Start *)
+    destruct (negb (started s)); [|exact Hk].
+    apply (K_ext s); [reflexivity|reflexivity|reflexivity|exact Hk].
+  - (* PumpStop *)
+    destruct (started s && closing s && negb (pumpStuck s)); [|exact Hk].
+    unfold K, pendl. cbn. reflexivity.
+  - (* PumpReq *)
+    destruct (pump_can_run s && negb (closing s) && (1 <=? reqC s)); [|exact Hk].
+    apply K_pump_tail; [eapply G1_ext; [| | | |exact G]; reflexivity|].
+    apply (K_ext s); [reflexivity|reflexivity|reflexivity|exact Hk].
+  - (* PumpReady *)
+    destruct (pump_can_run s && (1 <=? readyC s)); [|exact Hk].
+    apply K_pump_tail; [eapply G1_ext; [| | | |exact G]; reflexivity|].
+    apply (K_ext s); [reflexivity|reflexivity|reflexivity|exact Hk].
+  - (* PumpTimer *)
+    destruct (pump_can_run s && tok s); [|exact Hk]. cbv zeta.
+    set (s1 := set_timer s (tmo s) false).
+    assert (G1s1 : G1 s1) by (eapply G1_ext; [| | | |exact G]; reflexivity).
+    assert (K1 : K s1) by (apply (K_ext s); [reflexivity|reflexivity|reflexivity|exact Hk]).
+    destruct (negb (pend s1 =? 0)) eqn:Ep.
+    + apply negb_true_iff, Z.eqb_neq in Ep.
+      assert (Hq : exists t, q s1 = pend s1 :: t) by (destruct G1s1 as [X _ _]; exact (X Ep)).
+      destruct Hq as [t Hq]. rewrite Hq.
+      set (s2 := conclude (complete true s1 (pend s1)) (pend s1) K_TIMEOUT).
+      assert (K2 : K s2) by (apply (K_complete_conclude true s1 (pend s1) K_TIMEOUT t K1 Hq eq_refl Ep)).
+      assert (G2' : G1 s2) by (apply G1_complete_conclude with (t := t); assumption).
+      destruct (pumpStuck s2); [exact K2|].
+      apply K_pump_tail; [eapply G1_ext; [| | | |exact G2']; reflexivity|].
+      apply (K_ext s2); [reflexivity|reflexivity|reflexivity|exact K2].
+    + destruct (pumpStuck s1); [exact K1|].
+      apply K_pump_tail; [eapply G1_ext; [| | | |exact G1s1]; reflexivity|].
+      apply (K_ext s1); [reflexivity|reflexivity|reflexivity|exact K1].
+  - (* Deliver *)
+    destruct (handlerOn s && negb (stopSig s)); [|exact Hk].
+    destruct (concC s) as [|[r k] rest]; [exact Hk|]. cbv zeta.
+    destruct (cbq (set_concC s rest)); (apply (K_ext s); [reflexivity|reflexivity|reflexivity|exact Hk]).
+  - (* DeliverStop *)
+    destruct (handlerOn s && stopSig s); [|exact Hk].
+    apply (K_ext s); [reflexivity|reflexivity|reflexivity|exact Hk].
+Qed.
+
+Lemma K_init c t : K (init c t).
+Proof. reflexivity. Qed.
+
+Lemma run_K ls : forall s, Forall wf_lab ls -> G1 s -> K s -> K (run ls s).
+Proof.
+  induction ls as [|l ls IH]; intros s Hw G Hk; [exact Hk|].
+  inversion Hw; subst. cbn. apply IH; [assumption|apply step_G1; assumption|apply step_K; assumption].
+Qed.
+
+(** C02, every schedule: what has been written is what has been concluded followed by the outstanding request -- so at most
+    one CALL is outstanding, no CALL is written twice, and (with [nothing_lost_S1]) CALLs are written in the order in
+    which they were accepted *)
+Theorem written_is_concluded_plus_outstanding_S1 : forall c t ls, Forall wf_lab ls ->
+  let s := run ls (init c t) in wrs (tr s) = conc (tr s) ++ pendl s.
+Proof. intros c t ls Hw. exact (run_K ls _ Hw (G1_init c t) (K_init c t)). Qed.
+
+Theorem written_prefix_of_accepted_S1 : forall c t ls, Forall wf_lab ls ->
+  let s := run ls (init c t) in exists rest, acc (tr s) = wrs (tr s) ++ rest.
+Proof.
+  intros c t ls Hw s.
+  pose proof (written_is_concluded_plus_outstanding_S1 c t ls Hw) as Hk. fold s in Hk.
+  pose proof (run_G1 ls _ Hw (G1_init c t)) as [J1' _ J4']. fold s in J1', J4'.
+  unfold J4 in J4'. rewrite J4', Hk. unfold pendl. destruct (pend s =? 0) eqn:E.
+  - exists (q s). rewrite app_nil_r. reflexivity.
+  - apply Z.eqb_neq in E. destruct (J1' E) as [rest Hr]. exists rest. rewrite Hr, <- app_assoc. reflexivity.
+Qed.
+
+
+
 Record SI (s : cl) : Prop := {
   si_stopped : started s = false -> pend s = 0 /\ q s = [] /\ closing s = false;
   si_rdy : started s = true -> (1 <= readyC s \/ rdy s = true) -> pend s = 0;
